@@ -387,6 +387,10 @@ def Out.bytes (o : Out β) : Str := (o.lines.map (·.encoded)).flatten
 /-- `Canonicalization.GetBlankNodeIdentifier` for a blank node of the input. -/
 def Out.identifier (o : Out β) (b : β) : Str := (o.canon.get b).1
 
+/-- The issued identifiers map of the canonical issuer, in issue order. -/
+def Out.issued (o : Out β) : List (β × Str) :=
+  o.canon.order.map (fun b => (b, (assoc o.canon.known b).getD []))
+
 /-- `Canonicalize` with the default configuration and hash `H`. -/
 def canon (T : NQ.Tables) (H : Str → Str) (lim : Limits) (ord : List β → List β)
     (qs : List (Quad β)) : Res (Out β) :=
